@@ -57,6 +57,9 @@ CONFIGS = {
     "legacy_deserializer_only": {"deserializer": dec7},
     "timeouts": {"connect_timeout": 3, "timeout": 7},
     "timeout_only": {"timeout": 7},
+    # a str prefix that is not ASCII: whatever one class makes of it (today: the constructor refuses), all do
+    "unicode_str_prefix": {"key_prefix": "caf\u00e9:", "allow_unicode_keys": True},
+    "nonascii_str_prefix": {"key_prefix": "caf\u00e9:"},
     "connect_timeout_only": {"connect_timeout": 3},
     "no_delay": {"no_delay": True},
     "prefix+noreply_off+utf8": {"key_prefix": "q/", "default_noreply": False, "encoding": "utf8"},
@@ -167,6 +170,11 @@ def calls(cfgname):
     add("get_many", OneShot([key, K2], "iter"))
     add("gets_many", OneShot([K2, key], "generator"))
     add("delete_many", OneShot([key, K2], "iter"), noreply=False)
+    many = [f"bulk{i}" for i in range(250)]
+    add("get_many", many[:101])
+    add("gets_many", many)
+    add("delete_many", many[:130], noreply=False)
+    add("set_many", {k: b"v" for k in many[:120]}, noreply=False)
     add("get_many", [key, K2, key])
     add("gets_many", [key, key])
     add("delete_many", [key, key, K2], noreply=False)
@@ -223,7 +231,10 @@ def observe(stack, cfg, state, call, first=None):
         if cfg.get("allow_unicode_keys"):
             it.keys = [prefix + UK.encode("utf8")]
             srv.execute(it)
-    obj = build(stack, net, materialise(cfg, net))
+    try:
+        obj = build(stack, net, materialise(cfg, net))
+    except Exception as e:  # noqa - the constructor's verdict on the configuration is an observation too
+        return ("exc", "constructor:" + type(e).__name__), [], [], []
     if not hasattr(type(obj), name) and name.startswith("__"):
         return None
     if first is not None:
